@@ -26,6 +26,8 @@ type Env struct {
 	CacheViolations []string
 	// QueueViolations: queue calls of a sync that name the synced parent by another key.
 	QueueViolations []string
+	// LateHookCalls: sync/finalize hook exchanges that completed after the sync that made them had returned.
+	LateHookCalls []string
 	// OGStyle: how healthy children report status.observedGeneration:
 	// 0 = their generation, 1 = not at all, 2 = as a string, 3 = constant 0.
 	OGStyle int
@@ -191,6 +193,9 @@ func (e *Env) SharedStateViolation() error {
 	if len(e.CacheViolations) > 0 {
 		return vs.Violf("C17/cache-mutated", "shared cache objects changed during a sync: %v", e.CacheViolations)
 	}
+	if len(e.LateHookCalls) > 0 {
+		return vs.Violf("C17/hook-call-outlives-its-sync", "per-revision hook calls are part of the sync that makes them (a stopped controller makes no further calls, results are used or the sync fails): %v", e.LateHookCalls)
+	}
 	if len(e.QueueViolations) > 0 {
 		return vs.Violf("C17/parent-queued-under-two-keys", "a sync queued its own parent under another key than the one the event handlers use: %v", e.QueueViolations)
 	}
@@ -214,7 +219,13 @@ func (e *Env) run(f func() error) *SyncTrace {
 	e.W.Sim.Epoch = e.Syncs
 	e.W.Hooks.Epoch = e.Syncs
 	seq := e.W.Sim.Seq()
-	e.W.Hooks.Take()
+	for _, h := range e.W.Hooks.Take() {
+		// sync and finalize hooks are only ever called from inside a sync: an exchange recorded after the previous
+		// sync returned was made by a goroutine that outlived it (customize calls may also come from event handlers)
+		if (h.URL == SyncURL || h.URL == FinalizeURL) && e.Syncs > 1 && h.Epoch == e.Syncs-1 {
+			e.LateHookCalls = append(e.LateHookCalls, fmt.Sprintf("a %s call of sync %d arrived after that sync had returned", h.URL, h.Epoch))
+		}
+	}
 	e.W.Queue.Take()
 	before := e.W.CacheFingerprint()
 	func() {
@@ -232,6 +243,11 @@ func (e *Env) run(f func() error) *SyncTrace {
 	}
 	t.Reqs = e.W.Sim.LogSince(seq)
 	t.Hooks = e.W.Hooks.Take()
+	for _, h := range t.Hooks {
+		if (h.URL == SyncURL || h.URL == FinalizeURL) && h.Epoch != 0 && h.Epoch < e.Syncs {
+			e.LateHookCalls = append(e.LateHookCalls, fmt.Sprintf("a %s call begun in sync %d completed during sync %d", h.URL, h.Epoch, e.Syncs))
+		}
+	}
 	t.Queue = e.W.Queue.Take()
 	if os.Getenv("VERIF_TRACE") != "" {
 		fmt.Fprintf(os.Stderr, "--- sync %d\n", t.N)
